@@ -206,6 +206,35 @@ def gen_witness_eq(tier, rng):
             out.append(" ; ".join([str(prec), "|".join(decls)] + posts + ["solve", "to 400"]))
     return out
 
+def gen_witness_int_const(tier, rng):
+    """integer variables compared with NON-INTEGER float constants at the props level, in both operand orders and all four
+    relations (the strict ones go through LessThan's constant cases: x <= ceil(c) - 1, x >= floor(c) + 1), negative ranges
+    included; the witness integer lies 1/4 .. 3/4 of a unit inside every comparison.  One float variable with a loose row is
+    added to half of the models so that they are mixed.  (seeded change C07c truncated instead of flooring for negative c)"""
+    out = []
+    for _ in range(500 if tier == "quick" else 12000):
+        prec = rng.choice([1, 2, 3, 6, 6, 8])
+        nv = rng.choice([1, 2, 2])
+        decls, w = [], []
+        for _ in range(nv):
+            v = rng.randint(-9, 6); lo = v - rng.randint(0, 4); hi = v + rng.randint(0, 4)
+            decls.append("I %d %d" % (lo, hi)); w.append(v)
+        posts = []
+        for _ in range(rng.choice([1, 2, 2, 3])):
+            i = rng.randrange(nv)
+            d = Fraction(rng.choice([1, 2, 3]), 4) + rng.choice([0, 0, 1, 2])
+            below = rng.random() < 0.5
+            c = Fraction(w[i]) - d if below else Fraction(w[i]) + d
+            if below: rel, order = rng.choice([("gt", "vc"), ("geq", "vc"), ("lt", "cv"), ("leq", "cv")])
+            else: rel, order = rng.choice([("lt", "vc"), ("leq", "vc"), ("gt", "cv"), ("geq", "cv")])
+            posts.append("props %s x%d f:%s" % (rel, i, hq(c)) if order == "vc" else "props %s f:%s x%d" % (rel, hq(c), i))
+        if rng.random() < 0.5:
+            step = fm.step_of(prec); v = grid(rng, step)
+            decls.append("F %s %s" % (fm.f2h(dn(Fraction(v) - 2)), fm.f2h(up(Fraction(v) + 2))))
+            posts.append("props leq x%d f:%s" % (nv, hq(Fraction(v) + 1)))
+        out.append(" ; ".join([str(prec), "|".join(decls)] + posts + ["solve", "to 400"]))
+    return out
+
 def gen_unconstrained(tier, rng):
     """one float variable, NO constraint: every point of the interval is a (maximally robust) witness"""
     out = ["2 ; F 0000000000000000 3f8eb851eb851eb8 ; solve ; to 400"]       # the known witness: precision 2, [0, 0.015]
@@ -220,8 +249,10 @@ def gen_unconstrained(tier, rng):
 FAMILIES = [
     Family("fwitness", "solvef", gen_witness, split=c06.split_oracle, nontrivial=lambda c, i: True, prop_judge=judge),
     Family("fwitness_eq", "solvef", gen_witness_eq, split=c06.split_oracle, nontrivial=lambda c, i: True, prop_judge=judge),
+    Family("fwitness_int_const", "solvef", gen_witness_int_const, split=c06.split_oracle, nontrivial=lambda c, i: True, prop_judge=judge),
     Family("funconstrained", "solvef", gen_unconstrained, split=c06.split_oracle, nontrivial=lambda c, i: True, prop_judge=judge),
 ]
 FAMILIES[0].classify = classify
 FAMILIES[1].classify = classify
 FAMILIES[2].classify = classify
+FAMILIES[3].classify = classify
